@@ -187,7 +187,9 @@ def rule_layout_checked(ctx, rule="C06-layout"):
     if not b:
         ctx.need(rule, HB + "layout_from_capacity", "anchor", False, "layout_from_capacity not found")
         return
-    names = [callee_name(t) for _, t in b.calls()]
+    # (the sum may be computed by a private helper: `alloc_size_for(capacity)?`)
+    from guards import inlined_calls
+    names = [callee_name(t) for _, _, t in inlined_calls(b)]
     ok = "core::num::<impl usize>::checked_add" in names and "core::alloc::layout::Layout::from_size_align" in names and not any(n.rsplit("::", 1)[-1] in SINK_CALLS or "unchecked" in n for n in names)
     ctx.ob(rule, b.path, "checked-size", ok, how="size by checked_add, layout by Layout::from_size_align (fallible)", detail="layout_from_capacity uses %s" % sorted(set(names)))
     raw = [s["rv"]["op"] for blk in b.blocks for s in blk["stmts"] if s["k"] == "assign" and s["rv"]["k"] == "bin" and s["rv"]["op"] in SINK_OPS]
